@@ -18,7 +18,7 @@ GenNext ==
           \/ Cli_Connect(c) /\ hist' = Append(hist, Lab("Cli_Connect", c, ""))
           \/ Cli_SendHalf(c) /\ hist' = Append(hist, Lab("Cli_SendHalf", c, ""))
           \/ Cli_Close(c) /\ hist' = Append(hist, Lab("Cli_Close", c, ""))
-          \/ \E k \in {"close", "keep", "ws"} : Cli_SendRest(c, k) /\ hist' = Append(hist, Lab("Cli_SendRest", c, k))
+          \/ \E k \in Kinds : Cli_SendRest(c, k) /\ hist' = Append(hist, Lab("Cli_SendRest", c, k))
      \/ Worker_Take /\ hist' = Append(hist, Lab("Worker_Take", -1, ""))
      \/ Worker_Disc /\ hist' = Append(hist, Lab("Worker_Disc", -1, ""))
      \/ \E c \in Conns :
